@@ -256,6 +256,8 @@ def gen_spec(prop, rng, tier):
             muts.append(m)
         if len(data) > 200000:
             data = data[:200000]          # keep one scenario (x ~25 fault placements) affordable
+        if tier == 'quick' and len(wl['seqs']) > 500 and len(data) > 50000:
+            data = data[:50000]           # quick tier: hundreds of records AND a mutation that glues tens of kB into one record costs minutes under ASan
     mode = rng.choices(['cli', 'lib', 'arr'], [6, 3, 1])[0] if cls != 'options' else 'cli'
     if fmt_in == 'fasta' and mode != 'arr' and rng.random() < (0.8 if wl['profile'] == 'seqcap' else 0.2):
         # the records arrive in 2-3 sources (kalign a b c / several kalign_read_input calls into one object): a marker
@@ -304,7 +306,7 @@ def gen_spec(prop, rng, tier):
         # the other two public calls that take an msa: reformat_settings_msa (rename / unalign) and kalign_check_msa
         spec['libops'] = [rng.choice([['M', 1, 0], ['M', 1, 1], ['M', 0, 1], ['V', 0], ['V', 0], ['V', 1]]) for _ in range(rng.choice([1, 1, 2]))]
     spec['faults'] = enumerate_faults(spec, rng, pairs=0 if tier == 'quick' else 4)
-    cost = sum(len(x) for x in wl['seqs']) * max(len(x) for x in wl['seqs']) + len(data) * 50 + len(wl['seqs']) * 4000
+    cost = sum(len(x) for x in wl['seqs']) * max(len(x) for x in wl['seqs']) + len(data) * 50 + len(wl['seqs']) * 4000 + (len(data) * len(wl['seqs'])) // 4
     if tier == 'quick' and cost > 3_000_000 and len(spec['faults']) > 8:
         # expensive scenario (long rows or many records under ASan): a seeded sample of the placements instead of all of them
         spec['faults'] = rng.sample(spec['faults'], 2 if cost > 30_000_000 else (8 if len(wl['seqs']) < 500 else 4))
@@ -599,6 +601,13 @@ def outcome(spec, res, ix, fault):
                 why = None
                 break
     garbage_in = spec['cls'] != 'wellformed' or bool(readfault)     # a read fault truncates mid-line
+    if why and garbage_in and fmt != 'fasta' and not spec['extra_args']:
+        # names read from garbage may contain blanks ('>x!!NA_MULTIPLE_ALIGNMENT 1.0'): the blank-separated reading of a
+        # Clustal/MSF row then takes part of the name for residues; read the rows by position and last token instead
+        import parsers
+        r3 = parsers.parse_blocks_loose(text, fmt)
+        if len(r3) >= 2 and loose_valid(r3, extra + data + data) is None:
+            why = None
     if why and (any(n == b'' for n, _ in rows) or ((fmt != 'fasta' or spec['extra_args']) and b'\n ' in text and garbage_in)):
         # garbage input made kalign read a sequence without a name; a nameless row cannot be told from
         # padding in msf/clu, so the content oracle is not applied (memory safety etc. still are)
